@@ -6,6 +6,7 @@ operations of the model's `connStep` (`Model/Conn.lean`), whose invariant is C14
 -/
 import DtailModel.Generated.Code
 import DtailModel.Model.Conn
+set_option autoImplicit false
 namespace Dtail.GenConn
 open Dtail Dtail.Go Dtail.Gen.Conn
 
